@@ -18,6 +18,12 @@
 
 namespace verif {
 
+inline uint64_t mix64(uint64_t z) {
+    z = (z ^ (z >> 30)) * 0xBF58476D1CE4E5B9ull;
+    z = (z ^ (z >> 27)) * 0x94D049BB133111EBull;
+    return z ^ (z >> 31);
+}
+
 struct Rng {
     uint64_t s;
     explicit Rng(uint64_t seed) : s(seed) {}
@@ -99,7 +105,9 @@ inline int verif_main(int argc, char ** argv) {
     long lo = a.only >= 0 ? a.only : a.from, hi = a.only >= 0 ? a.only + 1 : n;
     for (long i = lo; i < hi; ++i) {
         std::printf("#case %ld\n", i); std::fflush(stdout);
-        Rng rng(a.seed * 0x9E3779B97F4A7C15ull + (uint64_t)i * 0xD1B54A32D192ED03ull + 0x1234567ull);
+        // the initial state is a HASH of (seed, case): with a state linear in the seed, seed+1 replayed seed's stream shifted by one
+        // draw (the increment of splitmix64 is the same constant), so "several seeds" explored far fewer distinct cases than it seemed
+        Rng rng(mix64(mix64((uint64_t)a.seed + 0x1234567ull) ^ ((uint64_t)i * 0xD1B54A32D192ED03ull + 0x9E3779B97F4A7C15ull)));
         try { verif_case(rng, i, a.tier); }
         catch (const std::exception & e) {
             // an exception escaping a case the harness believed valid is an outcome, not a harness failure
